@@ -100,4 +100,9 @@ example : socksConnect (ascii "10.0.0.1") 443 = some [5, 1, 0, 1, 10, 0, 0, 1, 1
 configuration that later requests are merged with - and its two call sites merge what the model says they merge. -/
 theorem merge_is_the_modelled_function : Gen.mergeHeadersAsModelled = true := by decide
 
+/-- **C11.proxy_requests_are_their_own** - Tie A (regenerated): the two requests httpcore itself builds for a proxy - CONNECT and the
+forwarded request - take over the caller's extensions without `target`; their request line is `connectRequest` / `forwardRequest` of
+the model whatever the caller put into that extension (findings F-C10-c, F-C11-c). -/
+theorem proxy_requests_are_their_own : Gen.proxyRequestsDropTargetExtension = true := by decide
+
 end Httpcore.C11
